@@ -446,13 +446,13 @@ def deep(tier, seed=0):
                    'properties': [f'p{j:04d}' for j in range(n)], 'rows': [m for _, m in r], 'deep': True}
 
 
-def biglat(tier):
+def biglat(tier, sizes=(15, 16)):
     """Lattices with tens of thousands of concepts (thorough tier only): Boolean lattices of the
     contranominal scales 15 and 16 (32 768 / 65 536 concepts) - thresholds inside the
     enumeration/traversal code (table sizes, heap sizes) are only reached here."""
     if tier != 'thorough':
         return
-    for n in (15, 16):
+    for n in sizes:
         full = (1 << n) - 1
         yield case(f'BIGLAT:contranominal{n}', [full & ~(1 << i) for i in range(n)], n, 'rev')
 
